@@ -5,6 +5,7 @@ import (
 	"fmt"
 
 	"github.com/cockroachdb/errors"
+	"github.com/cockroachdb/errors/errbase"
 	pkgerrors "github.com/pkg/errors"
 
 	"verif/mc/core"
@@ -45,6 +46,29 @@ func safeUnwrapOnceText(e error) string {
 	return e.Error()
 }
 
+// structDiff is modelDiff without the texts: causes and branches only.
+func structDiff(e error, m *tm.Node, path string) string {
+	if e == nil || m == nil {
+		if e == nil && m == nil {
+			return ""
+		}
+		return fmt.Sprintf("at %s: real node present=%v, the composition has one=%v", path, e != nil, m != nil)
+	}
+	if d := structDiff(errbase.UnwrapOnce(e), m.Cause, path+".cause"); d != "" {
+		return d
+	}
+	bs := errbase.UnwrapMulti(e)
+	if len(bs) != len(m.Multi) {
+		return fmt.Sprintf("at %s (%T): %d branches, the composition has %d", path, e, len(bs), len(m.Multi))
+	}
+	for i := range bs {
+		if d := structDiff(bs[i], m.Multi[i], fmt.Sprintf("%s.branch[%d]", path, i)); d != "" {
+			return d
+		}
+	}
+	return ""
+}
+
 func runC14(c *core.Ctx, r *core.Result) {
 	p := plan{fullDepth: 3, coreDepth: 4, alphabet: tm.REGE}
 	if c.Thorough() {
@@ -60,6 +84,12 @@ func runC14(c *core.Ctx, r *core.Result) {
 		report(r, t, nil, func(t *tm.Term) string {
 			return guarded("C14", func() string {
 				e := t.Build()
+				// the chain is there for the standard library to traverse: the
+				// error has the causes its constructors were given (a constructor
+				// that silently builds a leaf satisfies every differential clause)
+				if d := structDiff(e, t.Model(), "root"); d != "" {
+					return fail("structure", "the error tree differs from the composition that built it: %s", short(d))
+				}
 				allUnwrap, allCause, hasMulti := chainKinds(e)
 				if !allUnwrap || !allCause {
 					nontrivial = true
